@@ -111,6 +111,16 @@ def scenarios(tier):
     return q
 
 
+def chain_scenarios(tier):
+    """C18: a fair adversary keeps at least one finite read section open at every instant while the
+    writer stores; a fair cycle (lasso) in which the writer never returns is a livelock."""
+    q = [("chain_r2_s3", ["--mode", "chain", "--readers", 2, "--stores", 3]),
+         ("chain_r3_s2", ["--mode", "chain", "--readers", 3, "--stores", 2])]
+    if tier == "thorough":
+        q.append(("chain_r2_s8", ["--mode", "chain", "--readers", 2, "--stores", 8]))
+    return q
+
+
 def run_halflock(chk, tier, want_liveness=False):
     """Adds half-lock coverage/violations to chk (a Check). Returns the extracted constants."""
     pid = chk.pid
@@ -141,7 +151,10 @@ def run_halflock(chk, tier, want_liveness=False):
             if r.violation:
                 chk.model_violation(r, "half_lock.rs liveness", c)
     # 2. the real code, all schedules of small scenarios
-    for name, args, tconsts in scenarios(tier):
+    todo = list(scenarios(tier))
+    if pid == "C18":
+        todo += [(n, a, None) for n, a in chain_scenarios(tier)]
+    for name, args, tconsts in todo:
         out = os.path.join(WORK, "hl_%s_%s" % (chk.pid, name))
         fine_max = 600 if tier == "quick" else 5000
         stats, _, _ = harness("halflock", *args, "--out", out, "--max", 400000,
@@ -172,7 +185,7 @@ def run_halflock(chk, tier, want_liveness=False):
                 "replay": "harness halflock %s --replay '%s'" % (" ".join(map(str, args)), sched)})
             chk.violation("half-lock scenario %s: real execution rejected by HalfLockAbs at %s"
                           % (name, json.dumps(what)), path)
-        if not stale and not rej:
+        if not stale and not rej and tconsts is not None:
             c = dict(tconsts)
             c.update(consts)
             ftv = chk.trace_validate("TraceHalfLock.tla", fine_path, "fine_" + name, constants=c,
